@@ -16,12 +16,38 @@ structure Module where
   md : Meta.Sec
   deriving Inhabited
 
+/-! ### the optional keywords of a global variable (`@g = internal dso_local hidden dllexport thread_local(initialexec) unnamed_addr externally_initialized constant T V`) -/
+
+/-- the thread-local models (ir/helper.go tlsModelString): generic, initialexec, localdynamic, localexec -/
+def kTLS : List Bytes := [[116, 104, 114, 101, 97, 100, 95, 108, 111, 99, 97, 108],
+  [116, 104, 114, 101, 97, 100, 95, 108, 111, 99, 97, 108, 40, 105, 110, 105, 116, 105, 97, 108, 101, 120, 101, 99, 41],
+  [116, 104, 114, 101, 97, 100, 95, 108, 111, 99, 97, 108, 40, 108, 111, 99, 97, 108, 100, 121, 110, 97, 109, 105, 99, 41],
+  [116, 104, 114, 101, 97, 100, 95, 108, 111, 99, 97, 108, 40, 108, 111, 99, 97, 108, 101, 120, 101, 99, 41]]
+def kExtInit : List Bytes := [[101, 120, 116, 101, 114, 110, 97, 108, 108, 121, 95, 105, 110, 105, 116, 105, 97, 108, 105, 122, 101, 100]]
+
+/-- linkage of a DEFINITION (the nine keywords that are not `external` / `extern_weak`: a global variable of the fragment has an initializer), preemption, visibility,
+    DLL storage class, thread-local model, unnamed_addr, externally_initialized — in the order of the grammar and of the printer (ir/global.go LLString) -/
+def kGLead : List Bytes := Core3.kLinkage.take 9 ++ Core3.kPreemption ++ Core3.kVisibility ++ Core3.kDLL ++ kTLS ++ Core3.kUnnamed ++ kExtInit
+
+/-- the family of a position of `kGLead` -/
+def gleadFamily (i : Nat) : Nat :=
+  if i < 9 then 0 else if i < 11 then 1 else if i < 14 then 2 else if i < 16 then 3 else if i < 20 then 4 else if i < 22 then 5 else 6
+
+/-- at most one keyword of each family, the families in the order of the grammar (a repeated or misplaced keyword is a syntax error) -/
+def gleadOK (xs : List Nat) : Bool := xs.all (fun i => decide (i < kGLead.length)) && Core3.strictAsc (xs.map gleadFamily)
+
+def gleadsOK (gs : List Core2.Global) : Bool := gs.all fun g => gleadOK g.lead
+
+def sEqSp : Bytes := [32, 61, 32]                                         -- " = "
+def sGlobalKw : Bytes := [103, 108, 111, 98, 97, 108, 32]                 -- "global "
+def sConstantKw : Bytes := [99, 111, 110, 115, 116, 97, 110, 116, 32]     -- "constant "
+
 /-! ### printing -/
 
 def typedefLine (d : Core2.TypeDef) : Bytes := Enc.typeName d.name ++ Core2.sType ++ Core2.bodyString d.body
 
 def globalLine (useHex : Int → Bool) (g : Core2.Global) : Bytes :=
-  Enc.globalName g.name ++ (if g.isConst then Core2.sConstant else Core2.sGlobal) ++ tyString g.ty ++ [32] ++ Core2.constIdent useHex g.ty g.init
+  Enc.globalName g.name ++ sEqSp ++ Core3.flagsString kGLead g.lead ++ (if g.isConst then sConstantKw else sGlobalKw) ++ tyString g.ty ++ [32] ++ Core2.constIdent useHex g.ty g.init
 
 /-- function definitions are separated by an empty line -/
 def funcsLines (useHex : Int → Bool) : List Core3.Func → List Bytes
@@ -58,12 +84,16 @@ def readEntityLine (s : Bytes) : Option Core2.Line :=
   | 64 :: r =>
     (match Core3.takeBody r with
      | some (tok, rest) =>
-       (match stripPrefix Core2.sGlobal rest with
-        | some x => some (.global (64 :: tok) false x)
-        | none =>
-          (match stripPrefix Core2.sConstant rest with
-           | some x => some (.global (64 :: tok) true x)
-           | none => none))
+       (match stripPrefix sEqSp rest with
+        | some r0 =>
+          let (lead, r1) := Core3.readFlags (r0.length + 1) kGLead r0
+          (match stripPrefix sGlobalKw r1 with
+           | some x => some (.global (64 :: tok) false x lead)
+           | none =>
+             (match stripPrefix sConstantKw r1 with
+              | some x => some (.global (64 :: tok) true x lead)
+              | none => none))
+        | none => none)
      | none => none)
   | _ => none
 
@@ -173,6 +203,8 @@ def translate (t : Top) : Option Module :=
     (match Meta.translate raws with
      | .ok md =>
        if Core2.hasDup (c2.globals.map (·.name) ++ fs.map (·.name)) then none
+       -- (the keywords of a global variable: one of each family, in the order of the grammar)
+       else if !gleadsOK c2.globals then none
        else if (t.funcs.flatMap funcNames).all (fun n => (c2.typedefs.map (·.name)).contains n) &&
           -- every metadata attachment of an instruction names a definition of the metadata section (asm/metadata.go irMetadataAttachment)
           (fs.flatMap Core3.mdUses).all (fun k => (md.defs.map (·.id)).contains k) then some ⟨c2.typedefs, c2.globals, fs, md⟩
